@@ -251,7 +251,11 @@ impl HandshakeState {
                 Token::S => {
                     if !self.s.is_on() {
                         return Err(StateProblem::MissingKeyMaterial.into());
-                    } else if byte_index + self.s.pub_len() > message.len() {
+                    } else if byte_index
+                        + self.s.pub_len()
+                        + if self.symmetricstate.has_key() { TAGLEN } else { 0 }
+                        > message.len()
+                    {
                         return Err(Error::Input);
                     }
 
